@@ -19,6 +19,9 @@ pub struct Case {
     pub table: DataTable,
     pub query: Select,
     pub lines: Vec<String>,
+    /// additionally compare with the real FollowFileExecutor (child process)
+    #[serde(default)]
+    pub follow: bool,
 }
 
 pub struct C11;
@@ -77,7 +80,8 @@ impl Property for C11 {
             g.query.distinct = false;
         }
         let lines = crate::props::c04::gen_group_lines(t, &g.table, 14);
-        Case { table: g.table, query: g.query, lines }
+        let follow = t.chance(1, 30);
+        Case { table: g.table, query: g.query, lines, follow }
     }
 
     fn check(&self, case: &Case, ctx: &Ctx, obs: &mut Obs) -> Result<(), Failure> {
@@ -102,6 +106,8 @@ impl Property for C11 {
         }
 
         let mut engine = ExecutionEngine::new(&p.tables, &p.statement);
+        // what the follow executor is expected to print: per refreshing line the table (aggregate) / the emitted rows
+        let mut transcript: Vec<Vec<String>> = Vec::new();
         let mut shown: Vec<String> = Vec::new(); // aggregate: current table; select: all rows so far
         let mut prev_batch: Vec<String> = Vec::new();
         let mut refreshes_with_two_rows = 0;
@@ -125,6 +131,9 @@ impl Property for C11 {
                 return Err(Failure::new(format!("batch-error-only: {}", kind), format!("line {}: batch run over the prefix fails ({:?}) but the incremental run does not\n  {}", k, batch.result, context)));
             }
             let brec = batch.records();
+            if let Some(rr) = &inc.result {
+                transcript.push(print_rows(rr).into_iter().filter(|l| !l.is_empty()).collect());
+            }
             if aggregate {
                 if let Some(rr) = &inc.result {
                     shown = print_rows(rr).into_iter().filter(|l| !l.is_empty()).collect();
@@ -152,6 +161,41 @@ impl Property for C11 {
                 }
                 shown.extend(emitted);
                 prev_batch = brec;
+            }
+        }
+        // the real FollowFileExecutor (own process; refreshes are delimited by the clear-screen sequence)
+        if case.follow {
+            obs.label("follow-executor");
+            let content: String = case.lines.iter().map(|l| format!("{}\n", l)).collect();
+            let job = crate::follow_child::FollowJob {
+                defs: p.defs.clone(),
+                query: p.text.clone(),
+                content,
+                polls: Vec::new(),
+                idle: Vec::new(),
+                pre: 1,
+                head: true,
+                interrupt_at_probe: None,
+                file: ctx.file("c11-follow.txt").to_string_lossy().to_string(),
+            };
+            let out = match crate::follow_child::run_follow(ctx, &job) {
+                Ok(o) => o,
+                Err(e) => {
+                    eprintln!("follow child problem: {}", e);
+                    std::process::exit(2);
+                }
+            };
+            let got: Vec<Vec<String>> = if aggregate {
+                out.stdout.split(crate::follow_child::CLEAR).skip(1).map(|chunk| chunk.lines().filter(|l| !l.is_empty()).map(|l| l.to_string()).collect()).collect()
+            } else {
+                vec![out.stdout.lines().filter(|l| !l.is_empty()).map(|l| l.to_string()).collect()]
+            };
+            let want: Vec<Vec<String>> = if aggregate { transcript.clone() } else { vec![transcript.iter().flatten().cloned().collect()] };
+            if got != want || out.result.is_err() {
+                return Err(Failure::new(
+                    format!("follow-executor-differs: {}", kind),
+                    format!("FollowFileExecutor printed {:?} ({:?})\n  the per-line engine (equal to the batch runs over every prefix) gives {:?}\n  {}", got, out.result, want, context),
+                ));
             }
         }
         let repeated = !aggregate && case.query.distinct && {
